@@ -608,12 +608,25 @@ func failsAtOnce(b *ast.BlockStmt) string {
 func (fi *fileInfo) dispatches(fd *ast.FuncDecl) map[string][]arm {
 	out := map[string][]arm{}
 	count := map[string]int{}
+	// variables holding a field number: fn := x.FieldNumber()  /  switch fn := x.FieldNumber(); fn {
+	fnVars := map[string]string{}
+	ast.Inspect(fd.Body, func(n ast.Node) bool {
+		if as, ok := n.(*ast.AssignStmt); ok && len(as.Rhs) == 1 && len(as.Lhs) == 1 {
+			if r := fieldNumberRecv(as.Rhs[0]); r != "" {
+				fnVars[render(as.Lhs[0])] = r
+			}
+		}
+		return true
+	})
 	ast.Inspect(fd.Body, func(n ast.Node) bool {
 		switch x := n.(type) {
 		case *ast.SwitchStmt:
 			mv := ""
 			if x.Tag != nil {
 				mv = fieldNumberRecv(x.Tag)
+				if mv == "" {
+					mv = fnVars[render(x.Tag)]
+				}
 			}
 			if mv == "" {
 				return true
@@ -672,7 +685,9 @@ func (fi *fileInfo) dispatches(fd *ast.FuncDecl) map[string][]arm {
 			return true
 		})
 		sort.SliceStable(arms, func(i, j int) bool { return arms[i].num < arms[j].num })
-		out[fd.Name.Name] = arms
+		if len(arms) > 0 {
+			out[fd.Name.Name] = arms
+		}
 	}
 	return out
 }
@@ -684,7 +699,7 @@ func fnCond(e ast.Expr, fnVar string) (int, string, bool) {
 		return fnCond(x.X, fnVar)
 	case *ast.BinaryExpr:
 		if x.Op == token.EQL {
-			if render(x.X) == fnVar {
+			if render(x.X) == fnVar || (fnVar != "" && fieldNumberRecv(x.X) != "") {
 				if bl, ok := x.Y.(*ast.BasicLit); ok && bl.Kind == token.INT {
 					n, _ := strconv.Atoi(bl.Value)
 					return n, "", true
@@ -835,6 +850,32 @@ func (fi *fileInfo) foundRules(fd *ast.FuncDecl) []frule {
 			rules = append(rules, r)
 			return true
 		}
+		if fl, ok := flagsOf(is.Cond, false); ok && len(fl) == 1 && is.Else != nil {
+			// inverted form of a nil / error rule: if foundX { } else { dec.X = nil }
+			if eb, ok := is.Else.(*ast.BlockStmt); ok {
+				r := frule{kind: "nil", flags: fl}
+				hit := false
+				for _, st := range eb.List {
+					switch y := st.(type) {
+					case *ast.ReturnStmt:
+						r.kind, hit = "error", true
+					case *ast.AssignStmt:
+						if len(y.Lhs) == 1 && len(y.Rhs) == 1 {
+							if v, ok := y.Rhs[0].(*ast.Ident); ok && v.Name == "nil" {
+								if a, ok := iterArm[render(y.Lhs[0])]; ok {
+									r.nils = append(r.nils, a)
+									hit = true
+								}
+							}
+						}
+					}
+				}
+				if hit && len(is.Body.List) == 0 {
+					rules = append(rules, r)
+					return true
+				}
+			}
+		}
 		if fl, ok := flagsOf(is.Cond, false); ok {
 			r := frule{kind: "use", flags: fl}
 			// what the guarded block fills: fields of the element being decoded (a parameter of the function);
@@ -858,6 +899,23 @@ func (fi *fileInfo) foundRules(fd *ast.FuncDecl) []frule {
 			rules = append(rules, r)
 		}
 		return true
+	})
+	less := func(a, b armRef) bool { return a.scope < b.scope || (a.scope == b.scope && a.num < b.num) }
+	for i := range rules {
+		r := &rules[i]
+		sort.SliceStable(r.nils, func(x, y int) bool { return less(r.nils[x], r.nils[y]) })
+		sort.SliceStable(r.flags, func(x, y int) bool { return less(r.flags[x], r.flags[y]) })
+		sort.Strings(r.info)
+	}
+	sort.SliceStable(rules, func(x, y int) bool {
+		a, b := rules[x], rules[y]
+		if len(a.flags) == 0 || len(b.flags) == 0 {
+			return len(a.flags) < len(b.flags)
+		}
+		if a.flags[0] != b.flags[0] {
+			return less(a.flags[0], b.flags[0])
+		}
+		return a.kind < b.kind
 	})
 	return rules
 }
@@ -933,24 +991,26 @@ func (fi *fileInfo) formulas(fd *ast.FuncDecl) [][2]string {
 	getterOf := map[string]string{}
 	ast.Inspect(fd.Body, func(n ast.Node) bool {
 		as, ok := n.(*ast.AssignStmt)
-		if !ok || as.Tok != token.DEFINE || len(as.Lhs) != 1 || len(as.Rhs) != 1 {
+		if !ok || as.Tok != token.DEFINE || len(as.Lhs) != len(as.Rhs) {
 			return true
 		}
-		id, ok := as.Lhs[0].(*ast.Ident)
-		if !ok {
-			return true
-		}
-		g := ""
-		ast.Inspect(as.Rhs[0], func(m ast.Node) bool {
-			if c, ok := m.(*ast.CallExpr); ok {
-				if s, ok := c.Fun.(*ast.SelectorExpr); ok && strings.HasPrefix(s.Sel.Name, "Get") && len(c.Args) == 0 {
-					g = s.Sel.Name
-				}
+		for i := range as.Lhs {
+			id, ok := as.Lhs[i].(*ast.Ident)
+			if !ok {
+				continue
 			}
-			return true
-		})
-		if g != "" {
-			getterOf[id.Name] = g
+			g := ""
+			ast.Inspect(as.Rhs[i], func(m ast.Node) bool {
+				if c, ok := m.(*ast.CallExpr); ok {
+					if s, ok := c.Fun.(*ast.SelectorExpr); ok && strings.HasPrefix(s.Sel.Name, "Get") && len(c.Args) == 0 {
+						g = s.Sel.Name
+					}
+				}
+				return true
+			})
+			if g != "" {
+				getterOf[id.Name] = g
+			}
 		}
 		return true
 	})
